@@ -1,5 +1,5 @@
 PROP = dict(
-    module='kernel', pkg='mm/pmm', pkgname='pmm', harness=['pmm/pmm_test.go'], facts_name='Pmm',
+    module='kernel', pkg='mm/pmm', pkgname='pmm', harness=['pmm/pmm_test.go', 'pmm/c07pmm_test.go'], facts_name='Pmm',
     anchors='Pmm.json', expr_name='PmmExpr', expr_imports=['Firefly.Gen.Pmm'], tie_name='Pmm',
     n=dict(quick=300, thorough=6000),
     nontrivial=r'^(a|balloc|f \d+) \| \d',
